@@ -32,6 +32,7 @@ type recNode struct {
 	block   uint64
 	calls   []nodeCall
 	failAll error
+	failOn  func(method, arg string) bool
 }
 
 var _ ethnode.EthNode = &recNode{}
@@ -40,6 +41,9 @@ func (n *recNode) rec(m, a string) error {
 	n.mu.Lock()
 	defer n.mu.Unlock()
 	n.calls = append(n.calls, nodeCall{m, a, time.Now()})
+	if n.failOn != nil && n.failOn(m, a) {
+		return errors.New("scripted node RPC failure")
+	}
 	return n.failAll
 }
 
